@@ -17,7 +17,7 @@ list / tuple / dict / set                       `Val.list/tuple/dict/set` (dict 
 0-d ndarray                                     `Val.arr0 item dtype`
 n-d ndarray of a non-object dtype               `Val.ndarray dtype shape strides offset buf` (strides/offset in elements,
                                                 buf = base buffer with elements interned to Nat by the harness)
-n-d object array whose elements are all str     `Val.objarr shape elems` (elems in logical order, `x.flat`)
+n-d object array whose elements are all str     `Val.objarr shape elems` (elems in logical order, `x.flat`, each a list of code points)
 dtype / type objects inside a token             `Val.atom repr` (identified by their repr)
 hash_buffer_hex(bytes)                          `Val.hash tag payload` (tag 0: interned elements, 1: code points of a str
                                                 that is utf-8 encoded, 2: int64 array)
@@ -42,7 +42,7 @@ inductive Val where
   | set (xs : List Val)
   | arr0 (item : Val) (dtype : String)
   | ndarray (dtype : String) (shape : List Nat) (strides : List Int) (offset : Int) (buf : List Nat)
-  | objarr (shape : List Nat) (elems : List String)
+  | objarr (shape : List Nat) (elems : List (List Nat))
   deriving Repr, Inhabited
 
 /-! ## Python `repr` of the scalar classes -/
@@ -181,9 +181,11 @@ def logical (shape : List Nat) (strides : List Int) (offset : Int) (buf : List N
     let p := offset + dot strides idx
     if p < 0 then none else buf[p.toNat]?)
 
-def joinDash : List String → String := fun xs => "-".intercalate xs
-
-def codePoints (s : String) : List Nat := s.toList.map Char.toNat
+/-- `"-".join(elems)` on code-point lists (45 = '-') -/
+def joinDash : List (List Nat) → List Nat
+  | [] => []
+  | [x] => x
+  | x :: y :: r => x ++ 45 :: joinDash (y :: r)
 
 /-! ## `normalize_token` -/
 
@@ -206,9 +208,9 @@ def norm : Val → Val
   | .ndarray dt shape strides off buf =>
     match logical shape strides off buf with
     | some els => .tuple [.hash 0 els, .atom dt, .tuple (shape.map (fun n => .int (Int.ofNat n)))]
-    | none => .atom "<invalid ndarray>"
+    | none => .ndarray dt shape strides off buf   -- view leaves its buffer: not an array (never generated)
   | .objarr shape elems =>
-    .tuple [.tuple [.hash 1 (codePoints (joinDash elems)), .hash 2 (elems.map String.length)],
+    .tuple [.tuple [.hash 1 (joinDash elems), .hash 2 (elems.map List.length)],
             .atom "dtype('O')", .tuple (shape.map (fun n => .int (Int.ofNat n)))]
 def normL : List Val → List Val
   | [] => []
